@@ -282,6 +282,8 @@ class SymInt:
 
     def astype(s, dt):
         import numpy as _np
+        if dt is sym_int:
+            dt = int
         return s if _np.dtype(dt).kind in "iu" else SymReal(R(s))
 
     def __repr__(s):
@@ -654,3 +656,123 @@ def model_value(m, t):
         a = v.approx(20)
         return Fraction(a.numerator_as_long(), a.denominator_as_long())
     raise Unsupported("cannot concretise model value %s" % v)
+
+
+# ------------------------------------------------------------------ havoc-style summary of independent loops
+
+class SymRange:
+    """Replacement for the builtin `range` inside a toasty module: a range with symbolic bounds yields ONE index —
+    a caller-chosen witness (whose membership is recorded in `.membership` for the harness to prove) or an arbitrary
+    in-range value named rng<k> — which summarises a loop whose iterations are independent. Concrete ranges run
+    normally."""
+
+    def __init__(self, witnesses=None):
+        self.witnesses = dict(witnesses or {})     # ordinal -> SymInt
+        self.used = []                             # (ordinal, lo, hi, index)
+        self.membership = []                       # z3 Bools: witness k lies in its range
+
+    def __call__(self, a, b=None, step=None):
+        if b is None:
+            a, b = 0, a
+        if step is not None and step != 1:
+            raise Unsupported("range with step")
+        if not (is_sym(a) or is_sym(b)):
+            return range(a, b)
+        return _OneShot(self, a, b)
+
+
+class _OneShot:
+    def __init__(self, fac, a, b):
+        self.fac, self.a, self.b = fac, a, b
+
+    def __iter__(self):
+        fac = self.fac
+        k = len(fac.used)
+        c = ctx()
+        inr = None
+        if k in fac.witnesses:
+            idx = fac.witnesses[k]
+            inr = z3.And(I(self.a) <= I(idx), I(idx) < I(self.b))
+            fac.membership.append(inr)
+            fac.used.append((k, self.a, self.b, idx))
+            # the body is only entered for members: a separate claim shows the witness IS a member
+            if not c.branch(inr):
+                return
+        else:
+            idx = SymInt(z3.Int("rng%d" % k))
+            fac.used.append((k, self.a, self.b, idx))
+            # an ARBITRARY member of the range (the empty-range case is not explored: nothing would be iterated)
+            if not c.branch(z3.And(I(self.a) <= I(idx), I(idx) < I(self.b))):
+                raise PathAbort()
+        yield idx
+
+
+def loop_carried_names(func):
+    """Syntactic check behind the one-iteration summary: local names that are read in a for-loop body before being
+    (definitely) assigned in the same iteration although the body assigns them somewhere, i.e. names that could carry
+    a value from the previous iteration. Returns {lineno: [names]} (empty = iterations are independent)."""
+    import ast
+    import inspect
+    import textwrap
+    tree = ast.parse(textwrap.dedent(inspect.getsource(func)))
+
+    def names(node, kind):
+        return [n.id for n in ast.walk(node) if isinstance(n, ast.Name) and isinstance(n.ctx, kind)]
+
+    def scan(stmts, defined, assigned_in_loop, carried):
+        for st in stmts:
+            if isinstance(st, (ast.For, ast.AsyncFor)):
+                for n in names(st.iter, ast.Load):
+                    if n in assigned_in_loop and n not in defined:
+                        carried.add(n)
+                inner = set(defined) | set(names(st.target, ast.Store))
+                scan(st.body, inner, assigned_in_loop, carried)
+                scan(st.orelse, set(defined), assigned_in_loop, carried)
+            elif isinstance(st, ast.While):
+                for n in names(st.test, ast.Load):
+                    if n in assigned_in_loop and n not in defined:
+                        carried.add(n)
+                scan(st.body, set(defined), assigned_in_loop, carried)
+            elif isinstance(st, ast.If):
+                for n in names(st.test, ast.Load):
+                    if n in assigned_in_loop and n not in defined:
+                        carried.add(n)
+                d1, d2 = set(defined), set(defined)
+                scan(st.body, d1, assigned_in_loop, carried)
+                scan(st.orelse, d2, assigned_in_loop, carried)
+                defined |= (d1 & d2)
+            elif isinstance(st, (ast.With, ast.AsyncWith)):
+                for it in st.items:
+                    for n in names(it.context_expr, ast.Load):
+                        if n in assigned_in_loop and n not in defined:
+                            carried.add(n)
+                    if it.optional_vars is not None:
+                        defined |= set(names(it.optional_vars, ast.Store))
+                scan(st.body, defined, assigned_in_loop, carried)
+            elif isinstance(st, ast.Try):
+                scan(st.body, set(defined), assigned_in_loop, carried)
+                for h in st.handlers:
+                    scan(h.body, set(defined), assigned_in_loop, carried)
+                scan(st.orelse, set(defined), assigned_in_loop, carried)
+                scan(st.finalbody, set(defined), assigned_in_loop, carried)
+            else:
+                if isinstance(st, ast.AugAssign) and isinstance(st.target, ast.Name):
+                    if st.target.id not in defined:
+                        carried.add(st.target.id)
+                for n in names(st, ast.Load):
+                    if n in assigned_in_loop and n not in defined:
+                        carried.add(n)
+                defined |= set(names(st, ast.Store))
+
+    bad = {}
+    for node in ast.walk(tree):
+        if not isinstance(node, ast.For):
+            continue
+        assigned = set()
+        for st in node.body:
+            assigned |= set(names(st, ast.Store))
+        carried = set()
+        scan(node.body, set(names(node.target, ast.Store)), assigned, carried)
+        if carried:
+            bad[node.lineno] = sorted(carried)
+    return bad
